@@ -155,6 +155,9 @@ Inductive mobs :=
 Definition main_agrees (r : mainres) (o : mobs) : bool :=
   match r, o with
   | MFail e, MObsFail x c => (x =? (if e =? E_USAGE then 2 else 1)) && (c =? e)
+  (* a refusal whose message the harness does not know: exit status 1, unclassified *)
+  | MFail e, MObsList (LObsErr c) => negb (e =? E_USAGE) && (c =? E_UNKNOWN)
+  | MFail e, MObsRun (ObsErr c) => negb (e =? E_USAGE) && (c =? E_UNKNOWN)
   | MList cr, MObsList l => list_agrees_c cr l
   | MRun v, MObsRun ob => run_agrees v ob
   | _, _ => false
@@ -171,6 +174,12 @@ Definition mkcli e e' d d' n n' ip g gok iok iok' l t s r : cliargs :=
   {| ca_ext_pre := e; ca_ext_post := e'; ca_dis_pre := d; ca_dis_post := d'; ca_en_pre := n; ca_en_post := n';
      ca_ign_post := ip; ca_nglobs := g; ca_globs_ok := gok; ca_ign_pre_ok := iok; ca_ign_post_ok := iok';
      ca_list := l; ca_terminal := t; ca_stdin := s; ca_root := r |}.
+
+(* the kind of every span is decided by the model (Lang.v), under the -E map main ends up with *)
+Definition rekind_mfile (ext : list (str * str)) (m : mfile) : mfile :=
+  {| mf_file := rekind_file ext (mf_file m); mf_ign_pre := mf_ign_pre m; mf_ign_post := mf_ign_post m |}.
+Definition rekind_for (a : cliargs) (ms : list mfile) : list mfile :=
+  match plan_of a with Ok p => map (rekind_mfile (pl_ext p)) ms | _ => ms end.
 
 (* F12: the class of command lines on which values are dropped *)
 Definition split_flags (a : cliargs) (ms : list mfile) : bool :=
@@ -202,11 +211,13 @@ Definition spec_flag_main (keep : N -> bool) (o0 : obs) (o1 : mobs) : bool :=
 (* verdict for a run of the real binary against the model of main *)
 Definition check_main (a : cliargs) (fs : list mfile) (tb : tables) (cd : list (str * str * list diffop))
                       (o : mobs) (spec_ok : bool) : N :=
+  let fs := rekind_for a fs in
   let r := main_model a fs tb cd in
   verdict (main_agrees r o) spec_ok (main_missed r).
 
 Definition check_scope_main (a : cliargs) (fs : list mfile) (tb : tables) (cd : list (str * str * list diffop))
                             (o : mobs) (exp : option (list (str * lblock))) (extra : bool) : N :=
+  let fs := rekind_for a fs in
   let r := main_model a fs tb cd in
   let spec := spec_scope_main exp o && extra in
   (* the implementation does what the faithful model says, the property is not met, and the
@@ -217,6 +228,7 @@ Definition check_scope_main (a : cliargs) (fs : list mfile) (tb : tables) (cd : 
 Definition check_flag_main (c0 : rcase) (o0 : obs) (a : cliargs) (fs : list mfile) (tb : tables)
                            (o1 : mobs) (enable : bool) (vs : list N) : N :=
   let keep := fun v => if enable then existsb (N.eqb v) vs else negb (existsb (N.eqb v) vs) in
+  let fs := rekind_for a fs in
   let r := main_model a fs tb [] in
   verdict (run_agrees (model_run c0) o0 && main_agrees r o1) (spec_flag_main keep o0 o1)
           (full_missed c0 || main_missed r).
